@@ -206,6 +206,25 @@ theorem npres_pRetract (E : List Id) (D : List Nat) (id : Id) (x : Option Nat) :
       | exact h1
       | exact markChanged_ninv h1 hy rfl
 
+theorem npres_pPurge (E : List Id) (D : List Nat) (id : Id) (b : Bool) : NPres E D (pPurge id b) := by
+  intro s tx e h
+  unfold pPurge
+  split
+  · exact h.same
+  · rename_i tx1 y hl
+    obtain ⟨h1, hy⟩ := load_ninv h hl
+    repeat' split
+    all_goals first
+      | exact h1.same
+      | exact h1
+      | skip
+    refine h1.transfer (fun _ hi => hi) ?_ (fun _ _ hg => hg) rfl
+    intro q hq hn
+    rcases mem_stSet hq with h2 | h2
+    · rw [h2] at hn ⊢
+      exact .inr (hy hn)
+    · exact .inl h2
+
 theorem NInv.mint {E : List Id} {D : List Nat} {s : Store} {tx : Tx} {e : Option Err}
     (h : NInv E D { s := s, tx := tx, err := e }) (k : Kind) :
     NInv ((mintShell s tx k).2.2 :: E) D { s := (mintShell s tx k).1, tx := (mintShell s tx k).2.1, err := none } := by
@@ -232,6 +251,7 @@ macro "npres_chain" h:ident : tactic => `(tactic|
     | exact npres_pBind _ _ _ _ _ _ _ $h
     | exact npres_pSetState _ _ _ _ _ _ _ _ $h
     | exact npres_pRetract _ _ _ _ _ _ _ $h
+    | exact npres_pPurge _ _ _ _ _ _ _ $h
     | exact npres_pAssign _ _ _ _ _ _ _ $h
     | exact npres_pFail _ _ _ _ _ _ $h
     | exact npres_pGuard _ _ _ _
@@ -282,6 +302,7 @@ theorem applyClause_ninv (c : Clause) (D : List Nat) (hD : ∀ n, declares c = s
   | update t val expect bad => simp only [applyClause]; (repeat' split) <;> npres_chain h
   | setState t to expect => simp only [applyClause]; (repeat' split) <;> npres_chain h
   | retract t expect => simp only [applyClause]; (repeat' split) <;> npres_chain h
+  | purge t bad => simp only [applyClause]; (repeat' split) <;> npres_chain h
 
 theorem declare_ok {s : Store} {tx : Tx} {n : Nat} {k : Kind} (hg : hGet tx.handles n = none) :
     declare s tx n k =
@@ -369,6 +390,7 @@ theorem declareClause_declared (c : Clause) (s : Store) (tx : Tx) :
   | update => exact ⟨fun _ hm => hm, fun _ n hn => by cases hn⟩
   | setState => exact ⟨fun _ hm => hm, fun _ n hn => by cases hn⟩
   | retract => exact ⟨fun _ hm => hm, fun _ n hn => by cases hn⟩
+  | purge => exact ⟨fun _ hm => hm, fun _ n hn => by cases hn⟩
 
 theorem declareAll_mono (cs : List Clause) (p : PS) : ∀ m ∈ p.tx.declared, m ∈ (declareAll cs p).tx.declared := by
   unfold Tx.declareAll
